@@ -2835,6 +2835,18 @@ def groupby_reduce(
 
     elif not has_dask:
         reindex.set_blockwise_for_numpy()
+        _verif.emit(
+            "plan",
+            func=agg.name,
+            method="eager",
+            preferred=None,
+            engine=kwargs["engine"],
+            reindex_blockwise=reindex.blockwise,
+            nax=nax,
+            by_ndim=by_.ndim,
+            any_by_dask=False,
+            ncohorts=0,
+        )
         results = _reduce_blockwise(
             array,
             by_,
@@ -3296,3 +3308,7 @@ def dask_groupby_scan(array, by, axes: T_Axes, agg: Scan) -> DaskArray:
     assert result.chunks == array.chunks
 
     return result
+
+
+if _verif.ENABLED:  # verification hook (FLOX_VERIF=1 only): one event per groupby_reduce call with its configuration and outcome
+    groupby_reduce = _verif.traced_call(groupby_reduce)
